@@ -451,13 +451,20 @@ std::vector<Node::ControlEndpoint> Node::preferred_control_endpoints() const {
         }
     }
 
-    for (const auto& candidate : config_.auto_advertise_candidates) {
-        const auto port = candidate.port != 0 ? candidate.port : fallback_port;
-        append(candidate.host, port, false);
-    }
+    // Auto-discovered endpoints stay out of the hints when auto-advertise is off, and in warn mode while the
+    // candidates conflict (refresh_advertised_endpoints() withholds them from advertised_endpoints then).
+    const bool auto_suppressed = config_.advertise_auto_mode == Config::AdvertiseAutoMode::Off ||
+                                 (config_.advertise_auto_mode == Config::AdvertiseAutoMode::Warn && config_.auto_advertise_conflict);
 
-    if (transport_port != 0) {
-        append_self_endpoint();
+    if (!auto_suppressed) {
+        for (const auto& candidate : config_.auto_advertise_candidates) {
+            const auto port = candidate.port != 0 ? candidate.port : fallback_port;
+            append(candidate.host, port, false);
+        }
+
+        if (transport_port != 0) {
+            append_self_endpoint();
+        }
     }
 
     return endpoints;
